@@ -461,7 +461,7 @@ esl_msafile_a2m_Write(FILE *fp, const ESL_MSA *msa)
 		  if (msa->rf) is_consensus = (isalnum(msa->rf[pos]) ? TRUE : FALSE);
 		  else         is_consensus = (isalnum(msa->aseq[0][pos]) ? TRUE : FALSE);
 
-		  if (sym == 'O') sym = 'X';
+		  if (sym == 'O' || sym == 'o') sym = 'X'; /* as above: the reader takes O/o as a FIM, in either case */
 
 		  if      (is_consensus) { buf[bpos++] = ( is_residue ? toupper(sym) : '-'); }
 		  else if (is_residue)   { buf[bpos++] = tolower(sym); }
